@@ -232,7 +232,8 @@ def expand_brackets(s: str) -> str:
         else:
             # Looks for first number*(
             m = BRACKET_RE.search(s)
-            if m:
+            # The factor must be the one directly in front of this bracket, not that of a later group.
+            if m and m.end() == start + 1:
                 factor = int(m.group('factor'))
                 matchstart = m.start('factor')
                 if factor == 0:
